@@ -935,6 +935,17 @@ func c20DrawUniverse(t *rapid.T, maxChans int, forceGoodFirst,
 		capacity: 50_000,
 	}
 	u.buildChainFor(u.sentinel.ch)
+	// A block at the tip, so that the best block has a hash.
+	if _, err := u.chain.GetBlockHash(int64(u.best)); err != nil {
+		tip := wire.NewMsgTx(2)
+		tip.LockTime = u.best<<8 | 0xff
+		tip.TxIn = append(tip.TxIn, &wire.TxIn{})
+		tip.TxOut = append(tip.TxOut, &wire.TxOut{
+			PkScript: c20P2WKH(c20PrivFrom(u.seed, "tip")), Value: 5000,
+		})
+		u.chain.addBlock(u.best, []*wire.MsgTx{tip}, nil)
+	}
+
 	u.sentinel.ch.ann = u.makeCA(u.sentinel.ch, c20Features(), nil,
 		c20Mainnet)
 	u.sentinel.ch.ann.ch = -1
